@@ -136,19 +136,23 @@ func handleAttribute(dec *json.Decoder) (*Attribute, error) {
 // tokenToValue does all the heavy lifting of ensuring we have a
 // usable value.
 func tokenToValue(t json.Token) (Canonicalable, error) {
-	if s, ok := t.(string); ok {
-		return String(s), nil
-	}
-	if n, ok := t.(json.Number); ok {
-		if i, err := n.Int64(); err == nil {
+	switch v := t.(type) {
+	case string:
+		return String(v), nil
+	case json.Number:
+		if i, err := v.Int64(); err == nil {
 			return Integer(i), nil
 		}
-		if f, err := n.Float64(); err == nil {
+		if f, err := v.Float64(); err == nil {
 			return Float(f), nil
 		}
+		// neither an int64 nor a float64: there is no canonical form for it
+		return nil, fmt.Errorf("number %s cannot be represented in 64 bits", v)
+	case bool:
+		return Bool(v), nil
+	case nil:
+		return Null{}, nil
+	default:
+		return nil, fmt.Errorf("unexpected JSON token of type %T", t)
 	}
-	if b, ok := t.(bool); ok {
-		return Bool(b), nil
-	}
-	return Null{}, nil
 }
